@@ -160,6 +160,85 @@ class StabCompileOne(Harness):
         others_untouched(c)
 
 
+class DmCompileOne(Harness):
+    """DensityMatrixCompiler.compile_one_gate on a symbolic Hermitian rho against oracle O8"""
+
+    weight = 15
+    TOL = 1e-9
+
+    def install(self):
+        from symnp import install as sinstall
+        sinstall.install(np_modules=[], int_modules=[], summaries=False)
+        sinstall.install_dm_state()
+
+    def declare(self, S):
+        from vf.common import declare_rho
+        n = self.n_p + self.n_e
+        spec = declare_rho(S, n)
+        spec["creg"] = S.bits("creg", 2)
+        return spec
+
+    _build_op = StabCompileOne._build_op
+
+    def body(self, S, spec):
+        from graphiq.backends.density_matrix.compiler import DensityMatrixCompiler
+        from graphiq.backends.compiler_base import CompilerBase
+        from vf.common import dm_state, rho_cells
+        from oracle import dm as D
+
+        n = self.n_p + self.n_e
+        comp = DensityMatrixCompiler()
+        comp.measurement_determinism = self.det
+        qs = dm_state(spec["rho"].copy(), n)
+        creg = spec["creg"].copy()
+        op = self._build_op()
+        q_index = CompilerBase.reg_to_index_func(self.n_p)
+        comp.compile_one_gate(qs, op, n, q_index, creg)
+        got = rho_cells(qs.rep_data.data)
+        rho = rho_cells(spec["rho"])
+        idx = [index_of(tuple(r), self.n_p) for r in self.regs]
+        c = self.c
+
+        def others_untouched(skip=None):
+            for k in range(2):
+                if k != skip:
+                    S.prove(f"creg-untouched[{k}]", O.eq_bits(creg[k], spec["creg"][k]))
+
+        def same(want, tag="post-state"):
+            for k, cl in enumerate(D.matrix_close(got, want, self.TOL)):
+                S.prove(f"{tag}[{k}]", cl)
+
+        if self.op in ONE_Q:
+            same(D.apply_1q(rho, ONE_Q[self.op], idx[0], n))
+            others_untouched()
+            return
+        if self.op in TWO_Q:
+            same(D.apply_controlled(rho, "X" if self.op == "CNOT" else "Z", idx[0], idx[1], n))
+            others_untouched()
+            return
+        q = idx[0]
+        o = int(creg[c])
+        S.prove("outcome-is-bit", o in (0, 1))
+        proj, tr_o = D.project(rho, q, o, n)
+        _, tr_1 = D.project(rho, q, 1, n)
+        _, tr_0 = D.project(rho, q, 0, n)
+        S.prove("recorded-outcome-has-positive-probability", tr_o > 0)
+        if self.det == 1:
+            S.prove("determinism-1-rule: outcome 1 iff p(1) > 0", (tr_1 > 0) if o == 1 else b_not(tr_1 > 0))
+        elif self.det == 0:
+            S.prove("determinism-0-rule: outcome 0 iff p(0) > 0", (tr_0 > 0) if o == 0 else b_not(tr_0 > 0))
+        post = D.divide(proj, tr_o)
+        if self.op == "MeasurementZ":
+            same(post)
+        elif self.op in ("ClassicalCNOT", "ClassicalCZ"):
+            g = "X" if self.op == "ClassicalCNOT" else "Z"
+            same(D.apply_1q(post, g, idx[1], n) if o == 1 else post)
+        else:  # MeasurementCNOTandReset
+            want = D.apply_1q(post, "X", idx[1], n) if o == 1 else post
+            same(D.reset(want, q, n), tag="post-state(control reset to |0>)")
+        others_untouched(c)
+
+
 class RegToIndex(Harness):
     """CompilerBase.reg_to_index_func: photons map to 0..n_p-1, emitters to n_p.., injective (symbolic ints)"""
 
@@ -202,4 +281,21 @@ def plan(tier):
                         continue
                     jobs.append((StabCompileOne(op=op, n_p=n_p, n_e=n_e, regs=[list(a), list(b)], det=det, c=1), {}))
     jobs.append((RegToIndex(), {}))
+    # -- density-matrix leg -------------------------------------------------------------------------------
+    dm_sizes = [(1, 0), (0, 1), (1, 1), (2, 0)] if q else [(1, 0), (0, 1), (1, 1), (2, 0), (0, 2), (2, 1), (1, 2)]
+    for n_p, n_e in dm_sizes:
+        regs = placements(n_p, n_e)
+        for op in ONE_Q:
+            for r in regs:
+                jobs.append((DmCompileOne(op=op, n_p=n_p, n_e=n_e, regs=[list(r)], det="probabilistic", c=0), {}))
+        for op in TWO_Q:
+            for a, b in itertools.permutations(regs, 2):
+                jobs.append((DmCompileOne(op=op, n_p=n_p, n_e=n_e, regs=[list(a), list(b)], det="probabilistic", c=0), {}))
+        for r in regs:
+            for det in (0, 1, "probabilistic"):
+                jobs.append((DmCompileOne(op="MeasurementZ", n_p=n_p, n_e=n_e, regs=[list(r)], det=det, c=1), {}))
+        for op in ("ClassicalCNOT", "ClassicalCZ", "MeasurementCNOTandReset"):
+            for a, b in itertools.permutations(regs, 2):
+                for det in (0, 1, "probabilistic"):
+                    jobs.append((DmCompileOne(op=op, n_p=n_p, n_e=n_e, regs=[list(a), list(b)], det=det, c=1), {}))
     return jobs
